@@ -9,7 +9,10 @@ PROPS = ["C%02d" % i for i in range(1, 21)]
 
 def main():
     try:
-        common.build_harness()
+        import subprocess
+        for d in sorted(os.listdir(os.path.join(common.VERIF, "harness"))):
+            if os.path.exists(os.path.join(common.VERIF, "harness", d, "Cargo.toml")):
+                common.build_harness(d)
     except common.BuildFailed as e:
         print(str(e))
         return 1
